@@ -1,5 +1,6 @@
 SPECIFICATION Spec
 CONSTANTS
+  SampleT = 1
   Keys = {"a", "b", "c", "d"}
   Vals = {0, 1}
   MaxList = 3
